@@ -88,6 +88,9 @@ def run(verbose=False, ov=None, mir=None, native_path=None):
             except (M.Unsupported, M.ConcretePanic) as e:
                 sym_unsupported[name] = str(e)[:100]
                 continue
+            except TypeError as e:
+                sym_unsupported[name] = 'type error (poisoned value): %s' % str(e)[:80]
+                continue
             if r2 is M.DEAD or not (type(r2) is L and r2.tag == 'Vec'):
                 sym_unsupported[name] = 'no vector result'
                 continue
